@@ -169,7 +169,7 @@ def run_parent(prop, tier, seed, nshards, replay=None):
             continue
         seen.add(k)
         d = hashlib.sha1(json.dumps(v, sort_keys=True, default=str).encode()).hexdigest()[:12]
-        rdir = os.path.join(VERIF, "replays", prop)
+        rdir = os.path.join(os.environ.get("VMON_REPLAY_DIR", os.path.join(VERIF, "replays")), prop)
         os.makedirs(rdir, exist_ok=True)
         path = os.path.join(rdir, d + ".json")
         v["tree"] = boot.tree_id()
@@ -230,8 +230,9 @@ def run_parent(prop, tier, seed, nshards, replay=None):
             "wall_s": round(wall, 2),
             "violations": len(m["violations"]),
         }
-        os.makedirs(os.path.join(VERIF, "evidence"), exist_ok=True)
-        with open(os.path.join(VERIF, "evidence", prop + ".json"), "w") as fh:
+        evdir = os.environ.get("VMON_EVIDENCE_DIR", os.path.join(VERIF, "evidence"))  # overridden only by the mutation audit
+        os.makedirs(evdir, exist_ok=True)
+        with open(os.path.join(evdir, prop + ".json"), "w") as fh:
             json.dump(ev, fh, indent=1, default=str)
             fh.write("\n")
 
